@@ -181,6 +181,9 @@ impl PqMapper<RIId, pq::RelationExpr, rq::Transform, ()> for TransformCompiler<'
 }
 
 pub(super) fn compile_relation_instance(riid: RIId, ctx: &mut Context) -> Result<pq::RelationExpr> {
+    #[cfg(feature = "verif")]
+    let _verif_guard = crate::sql::verif_hooks::InstanceTrace::begin(ctx, &riid);
+
     ctx.anchor.positional_mapping.activate_mapping(&riid);
 
     let rel_instance = &ctx.anchor.relation_instances[&riid];
@@ -259,6 +262,8 @@ pub(super) fn compile_relation_instance(riid: RIId, ctx: &mut Context) -> Result
             tid: source,
             kind: pq::CteKind::Normal(relation),
         });
+        #[cfg(feature = "verif")]
+        crate::sql::verif_hooks::trace_event(serde_json::json!({ "event": "cte_pushed", "tid": source }));
     }
 
     Ok(pq::RelationExpr {
